@@ -11,7 +11,8 @@ import VivModel.Model.Machine
   sm transition <idx,…>                     Machine.transition
         → ok <st,…> <other,…> <path;path;…> <near,…>  |  err <class> <detail>
      (paths: per element of idx the states entered, pointwise model; near: labels whose decision is within
-      2^-40 of a bin edge) -/
+      2^-40 of a bin edge)
+  sm choose <self> <wd> <dd> <row;row;…> <d,…>   normalizeAll + choiceIdx per row   → ok <k,…> | err value <detail> -/
 open Viv Viv.Proto Viv.Machine
 
 structure St where
@@ -106,6 +107,16 @@ def step (s : St) : List String → St × String
         let near := idx.filter (fun i => nearOne s.m fuel ((s.tab[i]?.map (·.st)).getD 0) i)
         ({ s with tab := tab' },
          s!"ok {showNats (tab'.map (·.st))} {showInts (tab'.map (·.other))} {if paths.isEmpty then "-" else ";".intercalate paths} {showNats near}")
+  | ["sm", "choose", so, wd, dd, rows, draws] =>
+    -- `_normalize_probabilities` on a whole matrix, then `_choice` with the given draws (exact stream: the
+    -- harness calls the two functions directly with dyadic draws that hit the bin edges)
+    match bool? so, wd.toNat?, dd.toNat?, natLists rows, natList draws with
+    | some so, some wd, some dd, some rows, some draws =>
+      if wd == 0 || dd == 0 || rows.length != draws.length then (s, "bad-op") else
+      match normalizeAll wd so rows with
+      | .error e => (s, "err " ++ errStr e)
+      | .ok rs => (s, "ok " ++ showNats (List.zipWith (fun r d => choiceIdx r d dd) rs draws))
+    | _, _, _, _, _ => (s, "bad-op")
   | _ => (s, "bad-op")
 
 def main : IO Unit := Proto.run ({} : St) step
